@@ -798,7 +798,7 @@ fn exec_abandoned(xs: &[Req], deadline: std::time::Duration) -> Bad {
         model_step(&mut m, *x, 1);
     }
     // observers
-    let observers = [Req::GetState(0), Req::GetState(1), Req::GetExact(0), Req::GetMany(0), Req::GetMany(1)];
+    let observers = [Req::GetState(0), Req::GetState(1), Req::GetExact(0), Req::GetMany(0), Req::GetMany(1), Req::Insert(1), Req::GetMany(1)];
     let mut futs: Vec<Pin<Box<dyn Future<Output = String> + '_>>> = vec![];
     let mut wants = vec![];
     for (j, o) in observers.iter().enumerate() {
@@ -905,6 +905,10 @@ fn run_abandoned_family(ctx: &Ctx, report: &mut Report) {
             cases.push(vec![*a, *b]);
         }
     }
+    // an upgrade of an open document whose requester has stopped waiting
+    cases.push(vec![Req::ImportRead(1), Req::Open(1), Req::Import(1)]);
+    cases.push(vec![Req::ImportRead(1), Req::OpenSub(1), Req::Import(1)]);
+    cases.push(vec![Req::ImportRead(1), Req::OpenSync(1), Req::Import(1), Req::InsertRemote(1)]);
     if !ctx.quick() {
         // three abandoned requests over the requests that change state
         let ch: Vec<Req> = reqs.iter().copied().filter(|r| !matches!(r, Req::GetExact(_) | Req::GetMany(_) | Req::GetState(_) | Req::SyncInitial(_))).collect();
